@@ -64,6 +64,11 @@ THEOREMS = [
     "Verif.C09.ensemble_identical_auto",
     "Verif.C09.gls_normal_equations",
     "Verif.C09.covEntry_symm",
+    "Verif.C09.estimate_max_lag_zero",
+    "Verif.C09.estimate_dispatch_cve",
+    "Verif.C09.estimate_dispatch_ols",
+    "Verif.C09.estimate_rejects",
+    "Verif.C09.estimate_invariant",
 ]
 TOL = 1e-9
 AUTO_OPS = ("optpts", "olsauto", "copyauto", "ensolsauto", "optraw")  # max_lag=None: determine_optimal_points and what is built on it
@@ -233,6 +238,11 @@ def expand(case):
         calls.append({"v": "base", "op": "wmean", "means": case["means"], "counts": case["counts"]})
     elif kind == "cov":
         calls.append({"v": "base", "op": "cov", "K": case["K"], "n": case["n"], "a": case["a"], "b": case["b"]})
+    elif kind == "est":
+        # KymoTrack.estimate_diffusion as a dispatcher: one call per request (method, max_lag, localization_variance, its variance)
+        for q in case["reqs"]:
+            calls.append({"v": "base", "op": "est", "frames": case["frames"], "coords": case["coords"], "px": case["px"],
+                          "dt": case["dt"], "blur": case["blur"], "fdtype": case.get("fdtype"), "req": q})
     elif kind == "glsupd":
         # one step of the GLS iteration on the inverse covariance matrix the library itself computes for (K, n, a, b)
         calls.append({"v": "base", "op": "glsupd", "K": case["K"], "n": case["n"], "a": case["a"], "b": case["b"], "msd": case["msd"]})
@@ -392,6 +402,12 @@ def run_call(c):
     if op == "wmean":
         w = me.weighted_mean_and_sd(np.array(c["means"], dtype=float), np.array(c["counts"], dtype=np.int64))
         return "ok " + " ".join(rat(x) for x in w)
+    if op == "est":
+        tr = make_track(c)
+        q = c["req"]
+        e = tr.estimate_diffusion(q["method"], max_lag=q["L"], localization_variance=q["lv"],
+                                  variance_of_localization_variance=q["vlv"])
+        return show_est(e) + " " + ("N" if q["method"] == "cve" else str(int(e.num_lags)))
     if op == "glsupd" and gls_weight(c) is None:
         return "singular"
     if op == "glsupd":
@@ -494,6 +510,11 @@ def op_line(c):
         return f"c09.wmean {rlist(c['means'])} {rlist(c['counts'])}"
     if op == "cov":
         return f"c09.cov {c['K']} {rat(c['n'])} {rat(c['a'])} {rat(c['b'])}"
+    if op == "est":
+        q = c["req"]
+        fs, xs = enc_list(c["frames"]), rlist(positions_of(c["coords"], c["px"]))
+        return (f"c09.est {fs} {xs} {rat(c['dt'])} {rat(c['blur'])} {q['method'].replace(' ', '~') or '-'} {opt_int(q['L'])} "
+                f"{opt_rat(q['lv'])} {opt_rat(q['vlv'])}")
     if op == "glsupd":
         w = gls_weight(c)
         if w is None:
@@ -588,6 +609,22 @@ def agree(case, i, ia, ma):
     """DESIGN 2.2: ints exactly; rationals within 1e-9 * scale, the scale supplied by the model"""
     ia = strip_extras(ia)
     op = calls_of(case)[i]["op"]
+    if op == "est":
+        if ma in ("tie", "gls-not-modelled"):
+            return True  # (a sign tie of the lag search) / (a GLS fit itself: the dispatcher got through all its checks)
+        if not ia.startswith("ok ") or not ma.startswith("ok "):
+            return ia == ma
+        xa, xm = ia.split()[1:], ma.split()[1:]
+        if len(xa) != 4 or len(xm) != 4 or xa[3] != xm[3]:
+            return False
+        for j in range(3):
+            pa, pm = ptok(xa[j]), ptok(xm[j])
+            if pm == "nonfinite":
+                if not isinstance(pa, float):
+                    return False
+            elif not near(pa, pm, max(abs(pm), EST_SCALE(case)[j]), 1e-7):
+                return False
+        return True
     if op == "glsupd" and ma == "singular":
         return True  # kappa*mu - lam^2 = 0 exactly (or no inverse): the step divides by zero, nothing is determined
     if op in AUTO_OPS and ma == "tie":
@@ -965,6 +1002,49 @@ def oracle_glsupd(case, a):
     return None
 
 
+def EST_SCALE(case):
+    """magnitudes of (D, var D, localisation variance) of a dispatcher case: position range^2 over the line time"""
+    xs = positions_of(case["coords"], case["px"])
+    r2 = Fr(max(xs) - min(xs)) ** 2 if xs else Fr(0)
+    dt = Fr(case["dt"])
+    return (r2 / dt, (r2 / dt) ** 2, r2)
+
+
+def est_expected_error(case, q):
+    """the documented refusals of KymoTrack.estimate_diffusion, in the order the code takes them; None = it must go on"""
+    m, L, n = q["method"], q["L"], len(case["frames"])
+    if m not in ("cve", "ols", "gls"):
+        return "ValueError"
+    if m == "cve":
+        return None  # (judged by the cve ops of the track cases)
+    if q["lv"] is not None or q["vlv"] is not None:
+        return "NotImplementedError"
+    if L and L < 2:
+        return "ValueError"
+    if not L and m == "ols" and n <= 4:
+        return "RuntimeError"
+    if m == "gls" and not contiguous_frames(case["frames"]) and (L or n) >= 2:
+        return "RuntimeError"
+    return None
+
+
+def oracle_est(case, calls, ia):
+    for c, a in zip(calls, ia):
+        q = c["req"]
+        exp = est_expected_error(case, q)
+        if exp and a != exp:
+            return f"estimate_diffusion({q['method']!r}, max_lag={q['L']}, lv={q['lv']}, vlv={q['vlv']}): expected {exp}, got {a[:60]}"
+        if q["L"] == 0:  # `if max_lag`: 0 means "choose", exactly like None
+            twin = [b for d, b in zip(calls, ia) if d["req"] == dict(q, L=None)]
+            if twin and twin[0] != a:
+                return f"estimate_diffusion({q['method']!r}, max_lag=0) = {a[:50]} differs from max_lag=None = {twin[0][:50]}"
+        if q["method"] == "cve" and q["L"] is not None:  # max_lag is ignored by cve
+            twin = [b for d, b in zip(calls, ia) if d["req"] == dict(q, L=None)]
+            if twin and twin[0] != a:
+                return f"estimate_diffusion('cve', max_lag={q['L']}) differs from max_lag=None"
+    return None
+
+
 def est4(a):
     """'ok value var lv num_lags' -> 'value,var,lv,num_lags' (the form auto_lags_line / copies_auto take), else the exception name"""
     x = a.split()
@@ -1019,6 +1099,8 @@ def oracle(case, ia):
         return None
     if kind == "glsupd":
         return oracle_glsupd(case, ia[0])
+    if kind == "est":
+        return oracle_est(case, calls, ia)
     if kind == "optraw":
         for c, a in zip(calls, ia):
             if case["n"] <= 4:
@@ -1416,6 +1498,8 @@ def nontrivial(case, ia):
         return len(case["frames"]) >= 2 and any(a.startswith("ok ") for a in ia)
     if k == "optraw":
         return any(a.startswith("ok ") for a in ia)
+    if k == "est":
+        return any(a.startswith("ok ") for a in ia) and any(not a.startswith("ok ") for a in ia)
     if k == "glsupd":
         return ia[0].startswith("ok ") and len(case["msd"]) >= 2
     return all(a.startswith("ok ") for a in ia)
@@ -1640,6 +1724,27 @@ def with_auto(case):
 # localisation errors optimal_points is evaluated at (every track length 0..520 on thorough): the constants the code passes on
 # (0 as a Python int, inf, nan) and a grid from diffusion dominated to noise dominated
 OPTRAW_LES = ["zero", 0.0, "inf", "nan", 1e-9, 1e-3, 0.01, 0.1, 0.25, 0.5, 1.0, 2.0, 3.3, 5.0, 10.0, 30.0, 100.0, 1e3, 1e4, 1e6, 1e9, 1e15]
+
+
+EST_TRACKS = [  # (frames, coords in px): no missing frames / missing frames / too short for the lag search / minimal
+    ([3, 4, 5, 6, 7, 8, 9], [0.0, 1.25, 0.5, 2.0, 1.75, 3.5, 2.25]),
+    ([0, 1, 3, 4, 7, 8, 9], [1.0, 0.25, 1.5, 3.0, 2.5, 2.75, 4.0]),
+    ([2, 3, 4, 5], [0.0, 1.0, 0.5, 2.0]),
+    ([0, 2, 3], [0.5, 0.0, 1.5]),
+]
+
+
+def est_scope(quick):
+    """the dispatcher, exhaustively: 4 tracks x method in {cve, ols, gls, wrong ones} x max_lag in {None, 0, 1, 2, 3, -1, 100}
+    x localization_variance in {None, 0.0, 1/64} x its variance in {None, 1/1024} (quick: every second track)"""
+    reqs = [{"method": m, "L": L, "lv": lv, "vlv": vlv} for m in ("cve", "ols", "gls", "OLS", "mse", "")
+            for L in (None, 0, 1, 2, 3, -1, 100) for lv in (None, 0.0, 1 / 64) for vlv in (None, 1 / 1024)]
+    for i, (f, x) in enumerate(EST_TRACKS):
+        for half in (0, 1):
+            if quick and (i + half) % 2:
+                continue
+            yield {"stream": "small-scope", "kind": "est", "frames": f, "coords": x, "px": 0.5, "dt": 0.25, "blur": (0, 1 / 6)[i % 2],
+                   "fdtype": FDTYPES[i], "reqs": reqs[half::2]}
 
 
 def glsupd_scope(quick):
@@ -2002,6 +2107,22 @@ def _cases(tier, rng):
         yield pick_storage(sub, with_auto(c))
     yield from optraw_scope(quick)
     yield from glsupd_scope(quick)
+    yield from est_scope(quick)
+    r = rng.fork("c09-est")  # the dispatcher on random tracks: a few requests each, mostly valid ones
+    for i in range(40 if quick else 600):
+        sub = r.fork(i)
+        c = gen_track_case(sub, 20)
+        n = len(c["frames"])
+        reqs = []
+        for _ in range(4):
+            m = sub.choice(["ols", "ols", "gls", "cve", "cve", "ols ", "GLS"])
+            lv = sub.choice([None, None, None, 0.0, c["lv"]])
+            reqs.append({"method": m, "L": sub.choice([None, None, 0, 1, 2, 3, n - 1, n, n + 3, -2]), "lv": lv,
+                         "vlv": sub.choice([None, c["vlv"]]) if lv is not None else sub.choice([None, None, None, c["vlv"]])})
+            if reqs[-1]["L"] == 0 or (m == "cve" and reqs[-1]["L"] is not None):
+                reqs.append(dict(reqs[-1], L=None))
+        yield {"stream": "random", "kind": "est", "subseed": i, "frames": c["frames"], "coords": c["coords"], "px": c["px"],
+               "dt": c["dt"], "blur": c["blur"], "fdtype": sub.choice(FDTYPES), "reqs": reqs}
     r = rng.fork("c09-glsupd")
     for i in range(60 if quick else 1200):
         sub = r.fork(i)
@@ -2041,12 +2162,18 @@ def extra_coverage(results):
             "compared_by_track_length": {}, "compared_by_num_lags_vs_start_guess": {}, "noise_ratio_of_generated_tracks": {}}
     # the automatic number of lags as the MODEL runs it (determine_optimal_points / _ensemble, optimal_points, GLS step)
     lagsearch = {"by_op": {}, "num_lags_chosen": {}, "num_lags_vs_start_guess": {}, "slope_vs_intercept_lags": {},
-                 "optimal_points_localization_error": {}, "gls_step": {}}
+                 "optimal_points_localization_error": {}, "gls_step": {}, "dispatcher": {}}
     for r in results:
         c = r["case"]
-        if c["kind"] in ("track", "ens", "optraw", "glsupd"):
+        if c["kind"] in ("track", "ens", "optraw", "glsupd", "est"):
             for call, a, m in zip(expand(c), r["impl"], r["model"]):
                 op = call["op"]
+                if op == "est":
+                    q = call["req"]
+                    meth = q["method"] if q["method"] in ("cve", "ols", "gls") else "unknown method"
+                    out = "estimate" if m.startswith("ok ") else m[:24]
+                    d_ = lagsearch["dispatcher"].setdefault(meth, {})
+                    d_[out] = d_.get(out, 0) + 1
                 if op == "glsupd":
                     key = "singular" if m == "singular" else f"K={call['K']}" if call["K"] <= 6 else "K>=7"
                     lagsearch["gls_step"][key] = lagsearch["gls_step"].get(key, 0) + 1
